@@ -5,9 +5,24 @@ import os
 import sys
 
 sys.path.insert(0, os.path.dirname(os.path.abspath(__file__)))
-import registry  # noqa: E402
+import glob
 
 ROOT = os.path.dirname(os.path.dirname(os.path.abspath(__file__)))
+CLAIMED = {}
+for f in sorted(glob.glob(os.path.join(ROOT, "lib", "registry.d", "C*.json"))):
+    CLAIMED[os.path.basename(f)[:-5]] = json.load(open(f))
+NOT_YET = "check under construction in this round; will be claimed once its theorem and correspondence run"
+NOT_APPLICABLE = {}
+try:
+    NOT_APPLICABLE = json.load(open(os.path.join(ROOT, "lib", "registry.d", "not_applicable.json")))
+except OSError:
+    pass
+# merge known-findings fragments into the single committed file
+findings = []
+for f in sorted(glob.glob(os.path.join(ROOT, "known_findings.d", "*.json"))):
+    findings += json.load(open(f)).get("findings", [])
+json.dump({"_comment": "merged from known_findings.d/*.json by lib/mkmanifest.py; status known = reported as KNOWN-FINDING and not counted; status fixed = suppresses nothing", "findings": findings},
+          open(os.path.join(ROOT, "known_findings.json"), "w"), indent=1)
 props = [json.loads(l)["id"] for l in open(os.path.join(ROOT, "properties.jsonl"))]
 hooks = []
 try:
@@ -24,15 +39,15 @@ m = {
         "source_commits": hooks,
         "add_only": True,
     },
-    "engines": [{"name": "coq-skycoin", "path": "/verif/coq", "serves_properties": sorted(registry.CLAIMED),
+    "engines": [{"name": "coq-skycoin", "path": "/verif/coq", "serves_properties": sorted(CLAIMED),
                  "kind_free_text": "Coq 8.16 development: Gen/ regenerated from /repo by /verif/translator, hand models in Model/, proofs in Proofs/, statements in Properties/; correspondence by /verif/harness (Go, tag verif) + vm_compute on generated cases files"}],
     "checks": [],
     "not_applicable": [],
     "notes": "All checks: ./check <id> --tier quick|thorough. Known findings: known_findings.json. Design: DESIGN.md.",
 }
 for p in props:
-    if p in registry.CLAIMED:
-        c = registry.CLAIMED[p]
+    if p in CLAIMED:
+        c = CLAIMED[p]
         m["checks"].append({
             "property_id": p,
             "quick_cmd": "./check %s --tier quick" % p,
@@ -45,6 +60,6 @@ for p in props:
             "technique": c["technique"],
         })
     else:
-        m["not_applicable"].append({"property_id": p, "reason": registry.NOT_APPLICABLE.get(p, registry.NOT_YET)})
+        m["not_applicable"].append({"property_id": p, "reason": NOT_APPLICABLE.get(p, NOT_YET)})
 json.dump(m, open(os.path.join(ROOT, "MANIFEST.json"), "w"), indent=1)
 print("claimed:", len(m["checks"]), "not claimed:", len(m["not_applicable"]))
